@@ -1,7 +1,7 @@
 (* Props/C03.v — cw3: a proposal's status always equals the outcome its ballots imply. *)
 Require Import CwPlus.Params CwPlus.Base CwPlus.AMap CwPlus.Cw3Threshold CwPlus.Cw3ThresholdLemmas
   CwPlus.Cw3ThresholdContract CwPlus.Cw3ThresholdContractLemmas CwPlus.Cw4Model CwPlus.Cw3Model
-  CwPlus.Cw3Lemmas CwPlus.Cw3Lemmas2.
+  CwPlus.Cw3Lemmas CwPlus.Cw3Lemmas2 CwPlus.Cw3Lemmas3.
 Open Scope N_scope.
 
 (* in every reachable state the tally a proposal's status is computed from IS the sum of its recorded
@@ -63,10 +63,35 @@ Theorem c03_fixed_in_range : forall m gv ms cs, instantiate m gv = Ok ms -> i_fl
     forall a w v, get ordN (p_ballots p) a = Some (w, v) -> get ordN (voters s) a = Some w.
 Proof. exact fixed_reachable. Qed.
 
-(* PARTIAL: for cw3-flex the same range condition (tally <= total) is the statement of C06 and fails
-   in the known class D3 (Props/C06.v, d3_refuted); the history-level statement "a stored Passed /
-   Rejected equals the rule's answer on the present tally" combines the theorems above with block
-   monotonicity and is decided on the implementation by S_C03 at every observation. *)
+(* the latch invariant: a stored Passed / Rejected agrees with the rule on the present tally.  It is
+   kept by the passing of time (blocks not going backwards) and kept or established by every accepted
+   call, for every proposal; `prange` is the range condition of C06 (proved for cw3-fixed above; on
+   cw3-flex it fails only in the known class D3, Props/C06.v) *)
+Theorem c03_latch_time : forall p b b', prange p -> block_le b b' -> latched_ok p b -> latched_ok p b'.
+Proof. exact latched_time. Qed.
+Theorem c03_latch_step : forall ms gv b sender o ms' out id q,
+  MInv ms -> step ms gv b sender o = Ok (ms', out) ->
+  getp ms' id = Some q -> prange q ->
+  (forall j (p : proposal), getp ms j = Some p -> prange p /\ latched_ok p b) ->
+  latched_ok q b.
+Proof. exact latched_step. Qed.
+
+(* hence what EVERY query reports: Passed exactly when the rule passes on the recorded ballots, the
+   recorded total and the present expiry state (C04 says what that means in exact arithmetic: Yes > 0
+   and certain to satisfy the rule); Rejected only when it does not pass and is expired or can no
+   longer pass; Open only when unexpired and not passing; Executed only after Execute *)
+Theorem c03_status_is_outcome : forall p b s, prange p -> latched_ok p b -> p_status p <> Pending ->
+  prop_status p b = Some s ->
+  let ps := pass_fn (p_threshold p) (p_total p) (p_votes p) (expired_at p b) in
+  match s with
+  | Passed => ps = true
+  | Rejected => ps = false /\ (expired_at p b = true \/ rej_fn (p_threshold p) (p_total p) (p_votes p) false = true \/
+                               rej_fn (p_threshold p) (p_total p) (p_votes p) (expired_at p b) = true)
+  | Open => ps = false /\ expired_at p b = false
+  | Executed => p_status p = Executed
+  | Pending => False
+  end.
+Proof. exact status_is_outcome. Qed.
 
 Example c03_nonvacuous :
   exists ms, instantiate (mkInit false [(Some 1, 0); (Some 2, 3); (Some 3, 4)] (ThQuorum 510000000000000000 400000000000000000)
@@ -83,3 +108,6 @@ Print Assumptions c03_admission.
 Print Assumptions c03_sticky_passed.
 Print Assumptions c03_sticky_rejected.
 Print Assumptions c03_fixed_in_range.
+Print Assumptions c03_latch_time.
+Print Assumptions c03_latch_step.
+Print Assumptions c03_status_is_outcome.
